@@ -1,7 +1,7 @@
 #!/bin/sh
 # try_seed.sh <seed dir> <property> [tier]: apply the change to /repo, run the check, undo.
 S="$(cd "$1" && pwd)"; P="$2"; T="${3:-quick}"
-cd /repo && { git apply "$S/patch.diff" 2>/dev/null || git apply --3way "$S/patch.diff" 2>/dev/null; } || { echo "patch does not apply"; exit 2; }
+cd /repo && { git apply "$S/patch.diff" 2>/dev/null || git apply --3way "$S/patch.diff" 2>/dev/null; } || { git reset -q --hard HEAD; echo "patch does not apply"; exit 2; }
 cd /verif && ./check "$P" --tier "$T" > /tmp/try_seed.out 2>&1; rc=$?
 cd /repo && git reset -q --hard HEAD
 # (leave no harness binary behind that was built with the change)
